@@ -90,3 +90,22 @@ fn cubic_on_ack_monotone() {
     assert!(c.window() >= w0, "an acknowledgement shrank the window");
     assert!(c.window() >= 2 * c.current_mtu);
 }
+
+// @harness cubic_floor_spurious_event props=C12 tier=quick kind=proof fn="Cubic::on_spurious_congestion_event" desc="undoing a congestion event found spurious, from any invariant state and with any saved copy of the earlier state (it may predate an MTU increase): window() stays >= 2*MTU"
+#[cfg_attr(kani, kani::proof)]
+#[cfg_attr(verif_replay, test)]
+fn cubic_floor_spurious_event() {
+    let mut c = any_cubic();
+    if vk::any() {
+        let mut saved = c.state.clone();
+        saved.window = vk::any();
+        saved.ssthresh = vk::any();
+        saved.cwnd_inc = vk::any();
+        c.pre_congestion_state = Some(saved);
+    }
+    let before = c.window();
+    c.on_spurious_congestion_event();
+    assert!(c.window() >= 2 * c.current_mtu, "window below two datagrams after restoring the saved state");
+    assert!(c.window() >= before, "undoing a congestion event must not shrink the window");
+    assert!(c.pre_congestion_state.is_none());
+}
